@@ -1504,8 +1504,23 @@ class Interp:
                 self.call(Closure(si.node, {}, base, si.cls), [self.ev(t.slice, env, cls), value])
             else:
                 raise AnalysisError('heap model: store %s' % norm(t))
-        elif isinstance(t, ast.Tuple):
+        elif isinstance(t, (ast.Tuple, ast.List)):
             vals = self.seq(value)
+            stars = [i for i, tt in enumerate(t.elts) if isinstance(tt, ast.Starred)]
+            if len(stars) == 1:
+                # a, *rest, z = xs: the named targets from both ends, the starred one a new list of what lies between
+                i = stars[0]
+                after = len(t.elts) - i - 1
+                if len(vals) < len(t.elts) - 1:
+                    raise Raised('ValueError', h.version, getattr(t, 'lineno', 0))
+                for tt, v in zip(t.elts[:i], vals[:i]):
+                    self.assign(tt, v, env, cls)
+                self.assign(t.elts[i].value, h.new_list(vals[i:len(vals) - after]), env, cls)
+                for tt, v in zip(t.elts[i + 1:], vals[len(vals) - after:] if after else []):
+                    self.assign(tt, v, env, cls)
+                return
+            if stars:
+                raise AnalysisError('heap model: assignment target %s' % norm(t))
             if len(vals) != len(t.elts):
                 raise Raised('ValueError', h.version, getattr(t, 'lineno', 0))
             for tt, v in zip(t.elts, vals):
